@@ -5,6 +5,7 @@
   violation_text what a spec=bad case means
   trusted_base, assumptions, design_ref, level_text, level_note, technique
   known_matcher  optional function(diff) -> key of a `finding:` line in known_findings.txt, or None
+  extra_harness  optional list of additional harness crates (directories next to `harness/`) to build first
   timeout        optional {"quick": s, "thorough": s} for the harness run
 """
 import importlib.util, os, glob
@@ -32,5 +33,6 @@ HOOK_COMMITS = [
     "4dd7ca9 verif hook: HeaderType::verif_category exposes the private sort category",
     "276de69 verif hook: App::verif_default_subapp exposes the registered routes",
     "e940eba verif hook: thread pool event tracer (thread::verif)",
+    "f5dee11 verif hook: App::run event tracer (thread::verif::AppEvent) in app.rs and tokio/app.rs",
     "bcab896 verif hook: clock override for the file cache and sessions, cache constructor/state access, verify_connection export",
 ]
